@@ -96,13 +96,15 @@ def handleRestore (args : List (String × String)) : String :=
 def fmtMM (f : FileInfo) : String := s!"{f.min}:{f.max}"
 
 /-- `level DST=<n> F=<lvl:min:max:created,…> C=<cached infos lvl:min:max:created,…>`
-    → `ok <min>:<max> seek=<n> src=<min:max,…>` | `err nocompaction`. -/
+    → `ok <min>:<max> hdr=<min>:<max> seek=<n> src=<min:max,…>` (name range, header range of the merged sources) | `err nocompaction`. -/
 def handleLevel (args : List (String × String)) : String :=
   match natArg? args "DST", (arg? args "F").bind parseFiles?, (arg? args "C").bind parseFiles? with
   | some dst, some fs, some cs =>
     let st : RState := { files := listLevel fs, cache := fun l => cs.find? (fun c => c.level == l) }
     match compactPick st dst with
-    | .ok pk => s!"ok {pk.min}:{pk.max} seek={pk.seek} src=" ++ ",".intercalate (pk.srcs.map fmtMM)
+    | .ok pk =>
+      let h := srcHeader pk.srcs
+      s!"ok {pk.min}:{pk.max} hdr={h.1}:{h.2} seek={pk.seek} src=" ++ ",".intercalate (pk.srcs.map fmtMM)
     | .error .noCompaction => "err nocompaction"
   | _, _, _ => "bad-op"
 
